@@ -21,6 +21,8 @@
    the real classes; TLC checks the rational parts exactly (Wrap, Unit).   *)
 EXTENDS Integers, Sequences, FiniteSets, SequencesExt, FiniteSetsExt, Json, IOUtils, TLC
 
+VARIABLE cur      \* the case under examination (one TLC state per case)
+
 CONSTANTS MaxDims, BoundsSet, Fracs, WrapPoints
 
 Kinds == {"periodic", "bounded", "free"}
@@ -70,18 +72,17 @@ InverseOfForward(c) == Inv(Forward(c), Stages(c), Len(Stages(c)))
 JFwd(c) == [k \in 1..Len(Stages(c)) |-> <<Stages(c)[k].kind, 1>>]
 JInv(c) == [k \in 1..Len(Stages(c)) |-> <<Stages(c)[Len(Stages(c)) + 1 - k].kind, 0 - 1>>]
 
-RoundTrip == \A c \in Configs : InverseOfForward(c) = X0(c)
-InvJacNeg == \A c \in Configs : \A k \in 1..Len(Stages(c)) :
+RoundTrip == \A c \in {cur} : InverseOfForward(c) = X0(c)
+InvJacNeg == \A c \in {cur} : \A k \in 1..Len(Stages(c)) :
                 \E m \in 1..Len(Stages(c)) : JInv(c)[m][1] = JFwd(c)[k][1] /\ JInv(c)[m][2] = 0 - JFwd(c)[k][2]
-CompositeOrder == \A c \in Configs : \A a, b \in 1..Len(Stages(c)) :
+CompositeOrder == \A c \in {cur} : \A a, b \in 1..Len(Stages(c)) :
                     a < b => /\ (Stages(c)[a].kind = "affine" => FALSE)
                              /\ (Stages(c)[b].kind = "periodic" => FALSE)
-JacAccumulates == \A c \in Configs : Len(JFwd(c)) = Len(Stages(c)) /\ Len(JInv(c)) = Len(Stages(c))
+JacAccumulates == \A c \in {cur} : Len(JFwd(c)) = Len(Stages(c)) /\ Len(JInv(c)) = Len(Stages(c))
 \* every column of a stage is transformed by that stage exactly once in forward
-OnceEach == \A c \in Configs : \A i \in 1..c.d :
+OnceEach == \A c \in {cur} : \A i \in 1..c.d :
               Len(Fwd(X0(c), Stages(c), 1)[i]) = Cardinality({k \in 1..Len(Stages(c)) : i \in Stages(c)[k].cols})
 
-ASSUME RoundTrip /\ InvJacNeg /\ CompositeOrder /\ JacAccumulates /\ OnceEach
 
 (* ---- elementary maps: expression trees --------------------------------- *)
 V(n) == [op |-> "var", name |-> n]
@@ -158,8 +159,8 @@ Export == [configs |-> SetToSeq({[d |-> c.d, kinds |-> c.kinds, b2u |-> c.b2u, b
 ASSUME PrintT(<<"NCASES", Cardinality(Configs)>>)
 ASSUME JsonSerialize(IOEnv.OUT_FILE, Export)
 
-VARIABLE dummy
-Init == dummy = 0
-Next == UNCHANGED dummy
-Spec == Init /\ [][Next]_dummy
+\* one TLC state per case: the laws are state invariants evaluated on every case
+Init == cur \in Configs
+Next == UNCHANGED cur
+Spec == Init /\ [][Next]_cur
 =============================================================================
